@@ -373,6 +373,10 @@ class Simplex(Polytope):
         points = self._normalize_array(points)
         n, k = points.shape
 
+        if n <= self.pdim:
+            # fewer distinct vertices than a simplex of this dimension has (a repeated vertex): the simplex is degenerate
+            return 0.0
+
         if n == k:
             return 1 / math.factorial(n - 1) * abs(det(points))
 
